@@ -43,8 +43,12 @@ func main() {
 	res := lib.NewResult("case = one state view (node, operation index, head | block by number | block by hash) read over " +
 		"9 addresses x (class hash, nonce, 5 slots) + 7 class hashes x (class, compiled class hash); " +
 		"non-trivial = a historical view in which at least one answer differs from the answer at the head")
-	scratch := "/tmp/aC03-run"
-	_ = os.MkdirAll(scratch, 0o755)
+	// private to this process: concurrent runs (other seeds, replays) must not share it
+	scratch, err := os.MkdirTemp(os.TempDir(), "aC03-run-")
+	if err != nil {
+		res.Note("scratch directory: %v", err)
+		lib.Finish(f, res)
+	}
 	defer os.RemoveAll(scratch)
 	if f.Driver == "" {
 		res.Note("no --driver: correspondence with the Lean model not checked")
